@@ -460,7 +460,8 @@ pub fn gen_stream(rng: &mut Rng, cfg: ProdCfg) -> Stream {
         for _ in 0..g.rng.range(1, 3) {
             insts.push(g.inst(s.op("Label")));
             for _ in 0..g.rng.below(5) {
-                let op = *g.rng.pick(&body_pool);
+                // opcode 0 (OpNop) is the lower boundary of the opcode space: common instead of 1-in-500
+                let op = if g.rng.chance(1, 12) { s.op("Nop") } else { *g.rng.pick(&body_pool) };
                 insts.push(g.inst(op));
             }
             // structured control flow: a merge instruction right in front of the terminator
